@@ -28,11 +28,11 @@ H, Q1, Q3 = F(1, 2), F(1, 4), F(3, 4)
 def shapes():
     out = []
     # (shape, reward menu list) ; rewards per (s,a)
-    out.append((Shape(2, 2, [[0, 1], [0]], {(0, 0): {0: H, 1: H}, (0, 1): {1: 1}, (1, 0): {1: 1}}, absorb=[1], gamma=F(1), s0={0: H, 1: H},
+    out.append((Shape(2, 2, [[0, 1], [0]], {(0, 0): {0: H, 1: H}, (0, 1): {1: 1}, (1, 0): {1: 1}}, absorb=[1], gamma=F(1), s0={0: Q1, 1: Q3},
                       name='two-absorbing-start'),
                 [{(0, 0): F(-1, 4), (0, 1): F(-1), (1, 0): F(-2)}, {(0, 0): F(-1), (0, 1): F(-1, 2), (1, 0): F(0)}]))
     out.append((Shape(3, 2, [[0, 1], [0, 1], [0]], {(0, 0): {1: 1}, (0, 1): {0: Q1, 2: Q3}, (1, 0): {2: 1}, (1, 1): {0: H, 2: H}, (2, 0): {2: 1}},
-                      absorb=[2], gamma=F(1), s0={0: H, 1: H}, name='three-two-starts'),
+                      absorb=[2], gamma=F(1), s0={0: Q1, 1: Q3}, name='three-two-starts'),
                 [{(0, 0): F(-1, 4), (0, 1): F(-1), (1, 0): F(-1), (1, 1): F(-1, 4), (2, 0): F(0)},
                  {(0, 0): F(-1), (0, 1): F(-1, 2), (1, 0): F(-1, 8), (1, 1): F(-1), (2, 0): F(0)}]))
     out.append((Shape(3, 2, [[0, 1], [0, 1], [0]], {(0, 0): {1: 1}, (0, 1): {0: Q1, 2: Q3}, (1, 0): {2: 1}, (1, 1): {0: H, 2: H}, (2, 0): {2: 1}},
@@ -43,11 +43,11 @@ def shapes():
                       absorb=[3], gamma=F(1), s0={0: H, 3: H}, name='four-branching'),
                 [{(0, 0): F(-1, 3), (0, 1): F(-1, 2), (1, 0): F(-1), (2, 0): F(0), (2, 1): F(0), (3, 0): F(0)},
                  {(0, 0): F(-1), (0, 1): F(-1, 4), (1, 0): F(-1, 4), (2, 0): F(-1), (2, 1): F(-1, 2), (3, 0): F(-5)}]))
-    # costly chain S->A->B->C->G (10 per step) with a 'safe' action only at S (35): true values below -23
+    # costly chain S->A->B->C->G (20 per step) with a 'safe' action only at S: true values far below log(machine epsilon) = -36.04
     out.append((Shape(5, 2, [[0, 1], [0], [0], [0], [0]], {(0, 0): {1: 1}, (0, 1): {4: 1}, (1, 0): {2: 1}, (2, 0): {3: 1}, (3, 0): {4: 1}, (4, 0): {4: 1}},
                       absorb=[4], gamma=F(1), s0={0: 1}, name='costly-chain'),
-                [{(0, 0): F(-10), (0, 1): F(-35), (1, 0): F(-10), (2, 0): F(-10), (3, 0): F(-10), (4, 0): F(0)},
-                 {(0, 0): F(-10), (0, 1): F(-45), (1, 0): F(-10), (2, 0): F(-10), (3, 0): F(-10), (4, 0): F(0)}]))
+                [{(0, 0): F(-20), (0, 1): F(-75), (1, 0): F(-20), (2, 0): F(-20), (3, 0): F(-20), (4, 0): F(0)},
+                 {(0, 0): F(-20), (0, 1): F(-85), (1, 0): F(-20), (2, 0): F(-20), (3, 0): F(-20), (4, 0): F(0)}]))
     return out
 
 
